@@ -134,6 +134,7 @@ namespace RecInt
         return b;
     }
     template <size_t K, typename T> inline __RECINT_IS_ARITH(T, ruint<K>&) operator|=(ruint<K>& b, const T& c) {
+        if (__recint_isneg(c)) fill_with_1(b.High); // sign extension of c
         b.Low |= c;
         return b;
     }
@@ -153,6 +154,7 @@ namespace RecInt
         return b;
     }
     template <size_t K, typename T> inline __RECINT_IS_ARITH(T, ruint<K>&) operator^=(ruint<K>& b, const T& c) {
+        if (__recint_isneg(c)) b.High = ~b.High; // sign extension of c
         b.Low ^= c;
         return b;
     }
@@ -172,7 +174,7 @@ namespace RecInt
         return b;
     }
     template <size_t K, typename T> inline __RECINT_IS_ARITH(T, ruint<K>&) operator&=(ruint<K>& b, const T& c) {
-        reset(b.High);
+        if (!__recint_isneg(c)) reset(b.High); // a negative c is sign-extended: the upper half is kept
         b.Low &= c;
         return b;
     }
